@@ -286,10 +286,30 @@ impl<const M: usize> Sim<M> {
         }
         self.cur = format!("construct(cap={:?},try={})", cap, fallible);
         self.begin();
-        let r = catch_unwind(AssertUnwindSafe(|| match (cap, fallible) {
-            (None, _) => Ok(Bump::<M>::with_min_align()),
-            (Some(c), false) => Ok(Bump::<M>::with_min_align_and_capacity(c)),
-            (Some(c), true) => Bump::<M>::try_with_min_align_and_capacity(c),
+        // every public constructor: the MIN_ALIGN-generic ones, Default, and (for MIN_ALIGN = 1) the
+        // convenience constructors of `Bump` itself
+        let variant = (self.rng.next() % 3) as u8;
+        let r = catch_unwind(AssertUnwindSafe(|| -> Result<Bump<M>, bumpalo::AllocErr> {
+            if M == 1 && variant == 1 {
+                let b1: Bump<1> = match (cap, fallible) {
+                    (None, false) => Bump::new(),
+                    (None, true) => Bump::try_new()?,
+                    (Some(c), false) => Bump::with_capacity(c),
+                    (Some(c), true) => Bump::try_with_capacity(c)?,
+                };
+                // Bump<1> and Bump<M> are the same type here (M == 1); the compiler cannot see it
+                let b = unsafe { std::mem::transmute_copy::<Bump<1>, Bump<M>>(&b1) };
+                std::mem::forget(b1);
+                return Ok(b);
+            }
+            if variant == 2 && cap.is_none() {
+                return Ok(Bump::<M>::default());
+            }
+            match (cap, fallible) {
+                (None, _) => Ok(Bump::<M>::with_min_align()),
+                (Some(c), false) => Ok(Bump::<M>::with_min_align_and_capacity(c)),
+                (Some(c), true) => Bump::<M>::try_with_min_align_and_capacity(c),
+            }
         }));
         let ev = halloc::op_end();
         match r {
